@@ -666,6 +666,35 @@ func genLexGrammar1(rng *rand.Rand, o lexGenOpts) (*LexGrammar, []string) {
 		}
 		toks = append(toks, LexDef{Name: name, Kind: kind, Re: re})
 	}
+	// twin tokens: the same language as another token, but spelled through single-rune regular
+	// definitions (or the other way round); only the declaration order decides between them
+	if len(toks) > 0 && rng.Intn(3) == 0 {
+		src := toks[rng.Intn(len(toks))]
+		if !hasRef(src.Re) {
+			nTwin := 0
+			var wrap func(r *Re) *Re
+			wrap = func(r *Re) *Re {
+				if r == nil {
+					return nil
+				}
+				c := *r
+				if r.K == "set" && rng.Intn(2) == 0 {
+					name := fmt.Sprintf("_w%d", nTwin)
+					nTwin++
+					d := LexDef{Name: name, Kind: "def", Re: reSet(r.Lo, r.Hi)}
+					g.Defs = append(g.Defs, d)
+					return reRef(name)
+				}
+				c.L, c.R, c.X = wrap(r.L), wrap(r.R), wrap(r.X)
+				return &c
+			}
+			kind, name := "tok", fmt.Sprintf("t%d", len(toks))
+			if rng.Intn(4) == 0 {
+				kind, name = "ign", fmt.Sprintf("!i%d", len(toks))
+			}
+			toks = append(toks, LexDef{Name: name, Kind: kind, Re: wrap(src.Re)})
+		}
+	}
 	// interleave regdefs and tokens in source order (regdefs may be declared after use)
 	all := append(append([]LexDef{}, g.Defs...), toks...)
 	rng.Shuffle(len(all), func(i, j int) { all[i], all[j] = all[j], all[i] })
